@@ -203,8 +203,17 @@ func NewSchema(schema *openapi3.Schema, components Sourcer[Schema], opts SchemaO
 			}
 			for _, k := range sortedKeys(schema.Discriminator.Mapping) {
 				v := schema.Discriminator.Mapping[k]
+				// a mapping key that repeats the schema name adds nothing (the name is already a value)
+				addValue := func(dm *DiscriminatorMapping) {
+					for _, have := range dm.Values {
+						if have == k {
+							return
+						}
+					}
+					dm.Values = append(dm.Values, k)
+				}
 				if m, ok := refMapping[v]; ok {
-					mapMapping[m].Values = append(mapMapping[m].Values, k)
+					addValue(mapMapping[m])
 				} else {
 					if _, ok := mapMapping[v]; !ok {
 						out.Discriminator.Mapping = append(out.Discriminator.Mapping, DiscriminatorMapping{
@@ -213,7 +222,7 @@ func NewSchema(schema *openapi3.Schema, components Sourcer[Schema], opts SchemaO
 						})
 						mapMapping[v] = &out.Discriminator.Mapping[len(out.Discriminator.Mapping)-1]
 					}
-					mapMapping[v].Values = append(mapMapping[v].Values, k)
+					addValue(mapMapping[v])
 				}
 			}
 		}
